@@ -3,7 +3,7 @@ with the change and 0 without; copies confirmed ones to /verif/seeded/<id>/ with
 import glob, json, os, shutil, subprocess, sys, re
 from concurrent.futures import ThreadPoolExecutor
 
-SRC = "/tmp/mut_out"
+SRC = sys.argv[1] if len(sys.argv) > 1 else "/tmp/mut_out"
 cands = sorted(glob.glob(os.path.join(SRC, "*", "C*_*")))
 NW = 5
 props = {json.loads(l)["id"]: json.loads(l) for l in open("/verif/properties.jsonl")}
@@ -62,5 +62,5 @@ def work(args):
 chunks = [(k, cands[k::NW]) for k in range(NW)]
 with ThreadPoolExecutor(NW) as ex:
     allres = [r for part in ex.map(work, chunks) for r in part]
-json.dump(allres, open("/verif/.work/confirm_seeded.json", "w"), indent=1)
+json.dump(allres, open("/verif/.work/confirm_seeded_%d.json" % os.getpid(), "w"), indent=1)
 print("confirmed", sum(r["confirmed"] for r in allres), "of", len(allres))
